@@ -136,13 +136,14 @@ def r3(cx, rec):
                 x = cf.expr_rvalue(s['rv'])
                 a, b = x[4][0][1], x[4][1][1]
                 sa = show(a)
-                okk = '.ip' in sa and '":"' in sa and '.port' in sa and sa.index('.ip') < sa.index('":"') < sa.index('.port')
-                ent_a = {show(y[1]) for y in walk(a) if y[0] == 'field' and y[2] in ('ip', 'port')}
+                d_ip, d_port = '.' + f_ip, '.' + f_port
+                okk = d_ip in sa and '":"' in sa and d_port in sa and sa.index(d_ip) < sa.index('":"') < sa.index(d_port)
+                ent_a = {show(y[1]) for y in walk(a) if y[0] == 'field' and y[2] in (f_ip, f_port)}
                 pb = access_path(b) or ''
                 ent_b = show(b[1]) if b[0] == 'field' else None
                 rec.site(cf, bi, 'yields (%s, %s)' % (sa[-70:], pb))
                 rec.need(okk, 'peers-address-format', cf, bi, 'address is not ip + ":" + port: %s' % sa[-100:])
-                rec.need(pb.endswith('.peer_id') and len(ent_a) == 1 and ent_b in ent_a, 'peers-id-pairing', cf, bi, 'id %s is not taken from the same entry as the address' % pb)
+                rec.need(pb.endswith('.' + f_id) and len(ent_a) == 1 and ent_b in ent_a, 'peers-id-pairing', cf, bi, 'id %s is not taken from the same entry as the address' % pb)
     # malformed entries are skipped, not unwrapped: no panic-capable construct in the list builder or its closures
     for cf in [L] + [F.fns[c2] for c2 in F.children(L.path)]:
         for kind, pb, ops in mirq.panic_sites(cf):
@@ -308,10 +309,16 @@ def r5(cx, rec):
             okx = True
             rec.site(f, bb, 'candidates extended with resp.peers()')
     rec.need(okx, 'peers-not-queued', f, tgt, 'the peers of a good reply are not added to the candidates')
-    spawners = [bb for bb, t in C.local_calls(F, f) if bb in region and 'spawn' in t]
+    spawners = [(bb, t) for bb, t in C.local_calls(F, f) if bb in region and 'spawn' in t]
+    # ... or from a closure handed to an adaptor in the arm (`(0..n).for_each(|_| self.spawn_peer_handler())`)
+    for bb in mirq.real_calls(f):
+        if bb in region:
+            for x in walk(f.expr_call(bb)):
+                if x[0] == 'closure' and F.fns.get(x[1]) is not None:
+                    spawners += [(bb, t) for b2, t in C.local_calls(F, F.fns[x[1]]) if 'spawn' in t]
     rec.need(bool(spawners), 'no-connect', f, tgt, 'after a good reply no peer task is started')
-    for bb, t in C.local_calls(F, f):
-        if bb in region and 'spawn' in t:
+    for bb, t in spawners:
+        if True:
             S = F.body(t)
             pops = [b2 for b2 in mirq.real_calls(S) if S.expr_call(b2)[4].get('name') == 'pop' and (access_path(S.expr_call(b2)[2][0]) or '').split('.')[-1] == V.session_candidates(F)]
             sp = [b2 for b2 in mirq.real_calls(S) if (S.blocks[b2]['t'].get('callee') or '').endswith('tokio::spawn')]
